@@ -212,5 +212,68 @@ def gen_gf2(repo):
     if 'x_W = mod2linsolve(alpha, b)\n' not in lsn:
         raise TranslationError('linear_system_negatives: the call of mod2linsolve changed')
     return ('(* GENERATED by harness/translator/gf2_tr.py from sageopt/relaxations/poly_solution_recovery.py *)\n'
-            'From Coq Require Import List Bool Arith.\nFrom SageVerif Require Import Model.Gf2 Model.NpIdioms.\nImport ListNotations.\n\n'
-            + tr_rref(tree) + '\n' + tr_linsolve(tree) + '\n' + tr_nullspace(tree))
+            'From Coq Require Import List Bool Arith ZArith.\nFrom SageVerif Require Import Model.Gf2 Model.NpIdioms.\nImport ListNotations.\n\n'
+            + tr_rref(tree) + '\n' + tr_linsolve(tree) + '\n' + tr_nullspace(tree) + '\n' + tr_signs(tree))
+
+
+# ---------------------------------------------------------------------------------------------- linear_system_negatives / variable_sign_patterns
+LSN_TABLE = [
+    ('m, n = alpha.shape', None),
+    ('alpha = np.mod(alpha, 2).astype(int)', '  let alpha := parmat alpha in\n  let m := length alpha in\n'),
+    ('U = [i for i in range(m) if abs(moments[i]) > 0 and np.any(alpha[i, :] > 0)]',
+     '  let U := filter (fun i => negb (Z.eqb (nth i moments 0%Z) 0) && existsb (fun e => e) (nth i alpha [])) (seq 0 m) in\n'),
+    ('if len(U) == 0:\n    return (np.zeros(n), None, None, None)', '  if Nat.eqb (length U) 0 then LsnTrivial (repeat false n) else\n'),
+    ('W = [j for j in range(n) if np.any(alpha[U, j] > 0)]',
+     '  let W := filter (fun j => existsb (fun i => bit j (nth i alpha [])) U) (seq 0 n) in\n'),
+    ('if len(W) == 0:\n    return (np.zeros(n), None, None, None)', '  if Nat.eqb (length W) 0 then LsnTrivial (repeat false n) else\n'),
+    ('alpha = alpha[U, :]', '  let alpha := select U alpha [] in\n'),
+    ('alpha = alpha[:, W]', '  let alpha := map (fun r => select W r false) alpha in\n'),
+    ('b = (moments < 0)[U].astype(int)', '  let b := map (fun i => Z.ltb (nth i moments 0%Z) 0) U in\n'),
+    ('x_W = mod2linsolve(alpha, b)', '  let x_W := gen_mod2linsolve (length W) alpha b in\n'),
+    ('if x_W is None:\n    return (None, alpha, U, W)\nelse:\n    x = np.zeros(n)\n    x[W] = x_W\n    return (x, alpha, U, W)',
+     '  match x_W with\n  | None => LsnInconsistent alpha U W\n  | Some x_W => let x := scatter n W x_W in LsnSolved x alpha U W\n  end.\n'),
+]
+
+VSP_EXPECT = ['m, n = alpha.shape', 'x0, alpha1, U, W = linear_system_negatives(alpha, moments)',
+              'if x0 is None:\n    if not hueristic:\n        return []\n    else:\n        x0 = greedy_weighted_cut_negatives(alpha, moments)\n'
+              '        y0 = np.ones(n)\n        y0[x0 == 1] = -1\n        return [y0]\n'
+              'elif alpha1 is None:\n    y0 = np.ones(n)\n    return [y0]\n'
+              'else:\n    if all_signs:\n        arref, p = mod2rref(alpha1)\n        N0 = mod2nullspace(arref, p)\n    else:\n        N0 = [np.zeros(alpha1.shape[1])]\n'
+              '    signs = []\n    for vec0 in N0:\n        vec = np.zeros(n)\n        vec[W] = vec0\n        vec = np.mod(vec + x0, 2).astype(int)\n'
+              '        y = np.ones(n)\n        y[vec == 1] = -1\n        signs.append(y)\n    return signs']
+
+
+def tr_signs(tree):
+    tr = Tr('linear_system_negatives')
+    f = _find_toplevel_func(tree, 'linear_system_negatives')
+    if [a.arg for a in f.args.args] != ['alpha', 'moments']:
+        tr.fail('signature changed')
+    got = [_u(s) for s in _body(f)]
+    want = [t for t, _ in LSN_TABLE]
+    if got != want:
+        for i, (g, w) in enumerate(zip(got, want)):
+            if g != w:
+                tr.fail('statement %d changed: %r (expected %r)' % (i, g, w))
+        tr.fail('number of statements changed (%d, expected %d)' % (len(got), len(want)))
+    lsn = ('(* linear_system_negatives: which rows and columns enter the GF(2) system, its right-hand side, what is returned *)\n'
+           'Definition gen_linear_system_negatives (n : nat) (alpha : zmat) (moments : list Z) : lsn_result :=\n'
+           + ''.join(frag for _, frag in LSN_TABLE if frag))
+    tr2 = Tr('variable_sign_patterns')
+    g = _find_toplevel_func(tree, 'variable_sign_patterns')
+    if [a.arg for a in g.args.args] != ['alpha', 'moments', 'hueristic', 'all_signs'] or [_u(d) for d in g.args.defaults] != ['False', 'True']:
+        tr2.fail('signature or defaults changed')
+    gotv = [_u(s) for s in _body(g)]
+    if gotv != VSP_EXPECT:
+        tr2.fail('body changed: %r' % gotv)
+    vsp = ('(* variable_sign_patterns: true = -1; the greedy heuristic branch is a real-valued routine that is not translated (SpHeuristic) *)\n'
+           'Definition gen_variable_sign_patterns (n : nat) (alpha : zmat) (moments : list Z) (hueristic all_signs : bool) : sp_result :=\n'
+           '  match gen_linear_system_negatives n alpha moments with\n'
+           '  | LsnInconsistent _ _ _ => if negb hueristic then SpList [] else SpHeuristic\n'
+           '  | LsnTrivial _ => SpList [repeat false n]\n'
+           '  | LsnSolved x0 alpha1 U W =>\n'
+           "      let N0 := if all_signs then let '(arref, p) := gen_mod2rref false alpha1 in\n"
+           '                                   span (length W) (gen_mod2nullspace_basis (length W) arref p)    (* arref.shape[1] = len(W): alpha1 = alpha[:, W] *)\n'
+           '                else [repeat false (length W)] in\n'
+           '      SpList (map (fun vec0 => xorrow (scatter n W vec0) x0) N0)\n'
+           '  end.\n')
+    return lsn + '\n' + vsp
